@@ -4,13 +4,14 @@ import re
 from framework import REPO, LEAN, sh
 from props import c12clock
 
-TIE = ["Nsq.Tie.Guid"] + c12clock.TIE
-PROPS = ["Nsq.Props.C12"] + c12clock.PROPS
+TIE = ["Nsq.Tie.Guid", "Nsq.Tie.GuidHex"] + c12clock.TIE
+PROPS = ["Nsq.Props.C12", "Nsq.Props.C12Fn"] + c12clock.PROPS
 
 
 def run(ctx):
     ctx.trusted += [
-        "translator tools/go2lean (kind func) renders nsqd/guid.go NewGUID into Lean BitVec operations",
+        "translator tools/go2lean (kind func) renders nsqd/guid.go NewGUID into Lean BitVec operations; kind bytes "
+        "renders guid.Hex (byte stores, shifts, hex.Encode) into List UInt8 / BitVec operations",
         "Go memory model: guidFactory's mutex makes NewGUID one atomic step",
         "correspondence harness harness/e1/guid_test.go (white-box pre/post state of the real guidFactory)",
         "encoding/hex (modelled as two lower-case hex digits per byte; compared on random values)",
@@ -27,6 +28,7 @@ def run(ctx):
     ctx.rule += "; " + c12clock.RULE
     # 1-2: regenerate, build, audit
     gen_ok, _ = ctx.gen("e1_codec")
+    ctx.gen("e1_guidhex")   # translated guid.Hex (kind bytes) for Nsq.Tie.GuidHex
     for spec in c12clock.SPECS:   # body of Topic.GenerateID, writers / users of the id factory (Tie.GuidLoop)
         ctx.gen(spec)
     ok, log = ctx.lean_build(TIE + PROPS)
